@@ -26,7 +26,11 @@ from ..terms import Unsupported, is_sym
 from ..values import Obj, Arr, CArr, LibFunc, Ref, ExcVal, materialise, Opaque
 from ..lib import TypeTag, REG
 
-NANV = "nan"     # the literal np.nan
+NANV = lib.REG["numpy.nan"]     # the literal np.nan (an opaque marker)
+
+
+def _is_nanlit(d):
+    return isinstance(d, Opaque) and d.what == "nan"
 
 
 def is_xa(o):
@@ -58,7 +62,7 @@ def _as_operand(st, v):
         return ("xa", d)
     if isinstance(d, Arr):
         return ("np", d)
-    if isinstance(d, str) and d == NANV:
+    if _is_nanlit(d):
         return ("nanlit", None)
     return ("sc", d)
 
